@@ -128,6 +128,15 @@ impl Engine for PurityHist {
                 }
             }
         }
+        // near misses of the observed calls: the same request with one detail changed and every
+        // identity-like field (serial numbers, keys, issuer) kept — what pollutes a memo that is
+        // keyed too coarsely
+        for op in observed.iter() {
+            for _ in 0..r.range(0, 2) {
+                let near = perturb_op(op, &mut r);
+                history.push(HStep::Noise(if r.chance(1, 4) { Noise::FailingGen(near, r.below(10) as u8) } else { Noise::Gen(near) }));
+            }
+        }
         while history.len() < len {
             let key = r.usize(n_keys);
             let issuer = r.usize(n_issuers);
@@ -317,6 +326,67 @@ impl Engine for PurityHist {
         }
         v
     }
+}
+
+/// The same request with one detail changed; serial numbers, keys and issuer stay.
+pub fn perturb_op(op: &Op, r: &mut Rng) -> Op {
+    use crate::recipe::{DnValueR, SanR};
+    let mut o = op.clone();
+    match &mut o {
+        Op::SelfSign { recipe, store, .. } | Op::Issue { recipe, store, .. } => {
+            *store = false;
+            perturb_cert(recipe, r);
+        }
+        Op::Csr { recipe, .. } | Op::IssueFromCsr { recipe, .. } => perturb_cert(recipe, r),
+        Op::Crl { recipe, .. } => {
+            if !recipe.revoked.is_empty() && r.chance(3, 4) {
+                let k = r.usize(recipe.revoked.len());
+                let e = &mut recipe.revoked[k];
+                match r.below(3) {
+                    0 => e.reason = Some(match e.reason { Some(x) => (x + 1) % 10, None => 1 }),
+                    1 => e.time += 86_400,
+                    _ => e.invalidity = Some(e.invalidity.unwrap_or(e.time) - 3_600),
+                }
+            } else if r.bool() {
+                recipe.next_update += 86_400;
+            } else {
+                recipe.idp = match recipe.idp.take() {
+                    Some(_) => None,
+                    None => Some((vec!["http://crl.example/near-miss".into()], None)),
+                };
+            }
+        }
+    }
+    fn perturb_cert(c: &mut crate::recipe::CertRecipe, r: &mut Rng) {
+        match r.below(6) {
+            0 => c.not_after += 86_400,
+            1 => {
+                // replace the value of an attribute that is present (or add a common name)
+                if let Some(e) = c.dn.0.iter_mut().rev().find(|(_, v)| v.is_some()) {
+                    e.1 = Some(DnValueR::Utf8("near miss".into()));
+                } else {
+                    c.dn.0.push((crate::recipe::DnTypeR::Cn, Some(DnValueR::Utf8("near miss".into()))));
+                }
+            }
+            2 => {
+                if c.sans.is_empty() {
+                    c.sans.push(SanR::Dns("near-miss.example".into()));
+                } else {
+                    c.sans.pop();
+                }
+            }
+            3 => c.use_aki = !c.use_aki && !c.unsupported_in_csr(),
+            4 => {
+                if c.key_usages.is_empty() {
+                    c.key_usages.push(0);
+                } else {
+                    c.key_usages.pop();
+                }
+            }
+            _ => c.not_before -= 3_600,
+        }
+    }
+    o
 }
 
 fn issuer_of(op: &Op) -> Option<usize> {
